@@ -22,7 +22,7 @@ from __future__ import annotations
 import ast
 import os
 
-ACTIVE = ("doc", "ann", "cmp", "flip", "early", "names")  # "temp" is implemented but not switched on yet (rules still name today's temporaries)
+ACTIVE = ("doc", "ann", "cmp", "flip", "early", "loops", "names")  # "merge", "tuples": implemented, not needed so far  # "temp" is implemented but not switched on yet (rules still name today's temporaries)
 
 
 def _active():
@@ -50,12 +50,45 @@ def _const(k, like):
     return ast.copy_location(ast.Constant(k), like)
 
 
+_FLIP = {ast.Lt: ast.Gt, ast.Gt: ast.Lt, ast.LtE: ast.GtE, ast.GtE: ast.LtE, ast.Eq: ast.Eq, ast.NotEq: ast.NotEq}
+
+
+def _numconst(e) -> bool:
+    if isinstance(e, ast.UnaryOp) and isinstance(e.op, ast.USub):
+        e = e.operand
+    return isinstance(e, ast.Constant) and isinstance(e.value, (int, float)) and not isinstance(e.value, bool)
+
+
 class _Cmp(ast.NodeTransformer):
-    def visit_Compare(self, n):
+    def visit_UnaryOp(self, n):
         self.generic_visit(n)
+        # `not (a == b)` -> `a != b` (and is / in); `not (len(x) == 0)` etc. are integers: every comparison can be negated
+        if isinstance(n.op, ast.Not) and isinstance(n.operand, ast.Compare) and len(n.operand.ops) == 1:
+            c = n.operand
+            inv = {ast.Eq: ast.NotEq, ast.NotEq: ast.Eq, ast.Is: ast.IsNot, ast.IsNot: ast.Is, ast.In: ast.NotIn, ast.NotIn: ast.In}
+            t = type(c.ops[0])
+            if t in inv:
+                return self.visit_Compare(ast.copy_location(ast.Compare(left=c.left, ops=[inv[t]()], comparators=c.comparators), c), again=True)
+            ints = {ast.Lt: ast.GtE, ast.GtE: ast.Lt, ast.Gt: ast.LtE, ast.LtE: ast.Gt}
+            if t in ints and (_is_len(c.left) or _is_len(c.comparators[0])):
+                return self.visit_Compare(ast.copy_location(ast.Compare(left=c.left, ops=[ints[t]()], comparators=c.comparators), c), again=True)
+        return n
+
+    def visit_Compare(self, n, again=False):
+        if not again:
+            self.generic_visit(n)
         if len(n.ops) != 1:
             return n
         a, op, b = n.left, n.ops[0], n.comparators[0]
+        # a numeric literal stands on the right, a len() on the left; any other comparison is oriented like the same comparison
+        # of the reference tree (sa/names.py orient_comparisons, after the locals have their reference names)
+        if type(op) in _FLIP:
+            if _numconst(a) and not _numconst(b):
+                a, b, op = b, a, _FLIP[type(op)]()
+            elif not _numconst(b) and not _numconst(a):
+                if _is_len(b) and not _is_len(a):
+                    a, b, op = b, a, _FLIP[type(op)]()
+            n = ast.copy_location(ast.Compare(left=a, ops=[op], comparators=[b]), n)
         if _is_len(b) and _intc(a) is not None:
             flip = {ast.Lt: ast.Gt, ast.Gt: ast.Lt, ast.LtE: ast.GtE, ast.GtE: ast.LtE, ast.Eq: ast.Eq, ast.NotEq: ast.NotEq}
             if type(op) in flip:
@@ -162,6 +195,73 @@ def _early(stmts, inside, owner, field):
             rest = s.orelse
             s.orelse = []
             out.extend(_early(rest, inside, s, "orelse"))
+    return out
+
+
+def _whiletrue(stmts, inside, owner, field):
+    """`while True: if c: break; B` -> `while not c: B`  (the break test is the first statement, nothing else to it)"""
+    for s in stmts:
+        if isinstance(s, ast.While) and isinstance(s.test, ast.Constant) and s.test.value is True and not s.orelse and s.body:
+            f = s.body[0]
+            if isinstance(f, ast.If) and not f.orelse and len(f.body) == 1 and isinstance(f.body[0], ast.Break):
+                s.test = _Cmp().visit(ast.copy_location(ast.UnaryOp(op=ast.Not(), operand=f.test), f.test))
+                s.body = s.body[1:] or [ast.copy_location(ast.Pass(), f)]
+    return stmts
+
+
+def _mergeif(stmts, inside, owner, field):
+    """`if a: if b: X` (no else on either, nothing else in the outer body) -> `if a and b: X`"""
+    for s in stmts:
+        while isinstance(s, ast.If) and not s.orelse and len(s.body) == 1 and isinstance(s.body[0], ast.If) and not s.body[0].orelse:
+            inner = s.body[0]
+            vals = (s.test.values if isinstance(s.test, ast.BoolOp) and isinstance(s.test.op, ast.And) else [s.test]) + \
+                   (inner.test.values if isinstance(inner.test, ast.BoolOp) and isinstance(inner.test.op, ast.And) else [inner.test])
+            s.test = ast.copy_location(ast.BoolOp(op=ast.And(), values=vals), s.test)
+            s.body = inner.body
+    return stmts
+
+
+def _tuplesplit(stmts, inside, owner, field):
+    """`a, b = x, y` -> `a = x; b = y` when no bound name is read by a later value (plain names only)"""
+    out = []
+    for s in stmts:
+        if isinstance(s, ast.Assign) and len(s.targets) == 1 and isinstance(s.targets[0], ast.Tuple) and isinstance(s.value, ast.Tuple) \
+                and len(s.targets[0].elts) == len(s.value.elts) and all(isinstance(t, ast.Name) for t in s.targets[0].elts) \
+                and not any(isinstance(v, ast.Starred) for v in s.value.elts):
+            tg = [t.id for t in s.targets[0].elts]
+            if not any(isinstance(n, ast.Name) and n.id in tg[:i] for i, v in enumerate(s.value.elts) for n in ast.walk(v)):
+                for t, v in zip(s.targets[0].elts, s.value.elts):
+                    out.append(ast.copy_location(ast.Assign(targets=[t], value=v), s))
+                continue
+        out.append(s)
+    return out
+
+
+def _loop2comp(stmts, inside, owner, field):
+    """`x = []` followed by `for v in it: [if c:] x.append(e)` -> `x = [e for v in it if c]`"""
+    out, k = [], 0
+    while k < len(stmts):
+        s = stmts[k]
+        nxt = stmts[k + 1] if k + 1 < len(stmts) else None
+        if inside and isinstance(s, ast.Assign) and len(s.targets) == 1 and isinstance(s.targets[0], ast.Name) and isinstance(s.value, ast.List) \
+                and not s.value.elts and isinstance(nxt, ast.For) and not nxt.orelse and len(nxt.body) == 1:
+            x = s.targets[0].id
+            inner, conds = nxt.body[0], []
+            while isinstance(inner, ast.If) and not inner.orelse and len(inner.body) == 1:
+                conds.append(inner.test)
+                inner = inner.body[0]
+            if isinstance(inner, ast.Expr) and isinstance(inner.value, ast.Call) and isinstance(inner.value.func, ast.Attribute) \
+                    and inner.value.func.attr == "append" and isinstance(inner.value.func.value, ast.Name) and inner.value.func.value.id == x \
+                    and len(inner.value.args) == 1 and not inner.value.keywords:
+                others = [nxt.iter, inner.value.args[0]] + conds
+                if not any(isinstance(n, ast.Name) and n.id == x for e in others for n in ast.walk(e)) \
+                        and not any(isinstance(n, (ast.Yield, ast.YieldFrom, ast.Await, ast.NamedExpr)) for e in others for n in ast.walk(e)):
+                    comp = ast.ListComp(elt=inner.value.args[0], generators=[ast.comprehension(target=nxt.target, iter=nxt.iter, ifs=conds, is_async=0)])
+                    out.append(ast.copy_location(ast.Assign(targets=[s.targets[0]], value=ast.copy_location(comp, nxt)), s))
+                    k += 2
+                    continue
+        out.append(s)
+        k += 1
     return out
 
 
@@ -339,6 +439,13 @@ def normalise(tree: ast.Module, modname: str = "") -> ast.Module:
         _rewrite_blocks(tree, _flip)
     if "early" in act:
         _rewrite_blocks(tree, _early)
+    if "loops" in act:
+        _rewrite_blocks(tree, _whiletrue)
+    if "merge" in act:
+        _rewrite_blocks(tree, _mergeif)
+        _rewrite_blocks(tree, _loop2comp)
+    if "tuples" in act:
+        _rewrite_blocks(tree, _tuplesplit)
     if "names" in act and modname:
         from . import names
         for _ in range(3):
@@ -348,6 +455,7 @@ def normalise(tree: ast.Module, modname: str = "") -> ast.Module:
             names.inline_new_temporaries(tree)
             if ast.dump(tree) == before:
                 break
+        names.orient_comparisons(tree, modname)
     if "temp" in act:
         _temp(tree)
     ast.fix_missing_locations(tree)
